@@ -716,15 +716,21 @@ def clone_subjects(tier):
         subs.append(dict(mode="line", text=ln, version="gfa2"))
     for ln in HDR_DOC[:-1]:
         subs.append(dict(mode="line", text=ln, version=None))
-    for doc in docs:
-        gfa = gfapy.Gfa(vlevel=1)
-        for ln in doc:
-            gfa.add_line(ln)
-        for i, o in enumerate(gfa.lines):
-            if o.record_type != "H":
-                subs.append(dict(mode="conn", doc=doc, idx=i))
-        if any(ln.startswith("H\t") for ln in doc):
-            subs.append(dict(mode="conn", doc=doc, idx="header"))
+    for vl in ((1,) if tier == "quick" else (1, 0, 3)):
+        for doc in docs:
+            def build():
+                gfa = gfapy.Gfa(vlevel=vl)
+                for ln in doc:
+                    gfa.add_line(ln)
+                return gfa
+            r, gfa, _ = guarded(build)
+            if r != "ok":
+                continue            # (e.g. the repeated header tag at vlevel 3: reported by C18)
+            for i, o in enumerate(gfa.lines):
+                if o.record_type != "H":
+                    subs.append(dict(mode="conn", doc=doc, idx=i, vlevel=vl))
+            if any(ln.startswith("H\t") for ln in doc):
+                subs.append(dict(mode="conn", doc=doc, idx="header", vlevel=vl))
     return subs
 
 
@@ -733,7 +739,7 @@ def get_subject(sub):
     if sub["mode"] == "line":
         ln = gfapy.Line(sub["text"], version=sub["version"]) if sub["version"] else gfapy.Line(sub["text"])
         return None, ln
-    gfa = gfapy.Gfa(vlevel=1)
+    gfa = gfapy.Gfa(vlevel=sub.get("vlevel", 1))
     for ln in sub["doc"]:
         gfa.add_line(ln)
     return gfa, (gfa.header if sub["idx"] == "header" else gfa.lines[sub["idx"]])
